@@ -391,6 +391,7 @@ pub struct GM {
     pub n_pairs: AtomicU64,
     pub n_pruned: AtomicU64,
     pub fails: DashMap<&'static str, String>,
+    pub classes: DashMap<String, u64>,
 }
 
 pub fn build_model(sel: Sel, max_depth: u8) -> GM {
@@ -534,6 +535,7 @@ pub fn build_model_ex(sel: Sel, max_depth: u8, extra: Option<Vec<(String, BigUin
         n_pairs: AtomicU64::new(0),
         n_pruned: AtomicU64::new(0),
         fails: DashMap::new(),
+        classes: DashMap::new(),
     }
 }
 
@@ -687,6 +689,27 @@ impl GM {
                 Act { form: fi as u16, a: self.scalars.iter().position(|s| s.name == n)? as u16, b: NONE }
             }
         })
+    }
+
+    /// control class of a product state: representation shape x which member of the coset
+    pub fn classify(&self, s: &St) {
+        if s.bad != 0 {
+            *self.classes.entry("nonconforming".into()).or_insert(0) += 1;
+            return;
+        }
+        let f = &self.gm.dc.c.f;
+        let p = self.pt(&s.m);
+        let cb = coords_big(&s.c);
+        let one = BigUint::one();
+        let (kind, z, twin) = match s.kind {
+            Kind::E => {
+                let z = if cb[2] == one { "Z=1" } else if cb[2] == f.neg(&one) { "Z=-1" } else { "Z=other" };
+                ("Element", z, cb[0] != f.mul(&p.x, &cb[2]) || cb[1] != f.mul(&p.y, &cb[2]))
+            }
+            Kind::A => ("AffinePoint", "-", cb[0] != p.x || cb[1] != p.y),
+        };
+        let id = if self.gm.is_zero(&s.m) { "identity" } else { "non-identity" };
+        *self.classes.entry(format!("E1/{kind}/{id}/{z}/{}", if twin { "other-coset-member" } else { "reference-member" })).or_insert(0) += 1;
     }
 
     fn fail(&self, name: &'static str, msg: String) -> bool {
@@ -1052,24 +1075,28 @@ impl Model for GM {
             Sel::C01 => {
                 v.push(Property::always("C01:roundtrip+bijection", |m: &GM, s: &St| {
                     m.n_inv.fetch_add(1, Ordering::Relaxed);
+                    m.classify(s);
                     m.inv_c01(s)
                 }));
             }
             Sel::C03 => {
                 v.push(Property::always("C03:spec_encoding", |m: &GM, s: &St| {
                     m.n_inv.fetch_add(1, Ordering::Relaxed);
+                    m.classify(s);
                     m.inv_c03(s)
                 }));
             }
             Sel::C04 => {
                 v.push(Property::always("C04:group_law_conformance", |m: &GM, s: &St| {
                     m.n_inv.fetch_add(1, Ordering::Relaxed);
+                    m.classify(s);
                     s.bad != 1
                 }));
             }
             Sel::C05 => {
                 v.push(Property::always("C05:scalar_mul_conformance", |m: &GM, s: &St| {
                     m.n_inv.fetch_add(1, Ordering::Relaxed);
+                    m.classify(s);
                     s.bad != 2
                 }));
                 v.push(Property::always("C05:order_divides_r", |m: &GM, s: &St| s.bad != 0 || m.inv_c05(s)));
@@ -1077,6 +1104,7 @@ impl Model for GM {
             Sel::C06 => {
                 v.push(Property::always("C06:conversion_conformance", |m: &GM, s: &St| {
                     m.n_inv.fetch_add(1, Ordering::Relaxed);
+                    m.classify(s);
                     s.bad != 3
                 }));
                 v.push(Property::always("C06:valid", |m: &GM, s: &St| s.bad != 0 || m.inv_c06(s)));
@@ -1084,6 +1112,7 @@ impl Model for GM {
             Sel::C08 => {
                 v.push(Property::always("C08:identity_predicates", |m: &GM, s: &St| {
                     m.n_inv.fetch_add(1, Ordering::Relaxed);
+                    m.classify(s);
                     m.inv_c08_identity(s)
                 }));
                 v.push(Property::always("C08:eq_hash_pairs", |m: &GM, s: &St| m.inv_c08_pairs(s)));
@@ -1170,6 +1199,9 @@ pub fn run(ctx: &Arc<Ctx>, sel: Sel) {
     r.traces.store(gm.n_next.load(Ordering::Relaxed), Ordering::Relaxed);
     r.evaluations.fetch_add(gm.n_inv.load(Ordering::Relaxed), Ordering::Relaxed);
     r.distinct_extra.fetch_add(stats.unique, Ordering::Relaxed);
+    for e in gm.classes.iter() {
+        *r.classes.entry(e.key().clone()).or_insert(0) += *e.value();
+    }
     r.set("explorer", json!({
         "engine": "layered parallel BFS over a stateright::Model (bfs.rs), 128-bit state fingerprints", "threads": threads,
         "depth_bound": depth, "states_per_depth": stats.per_depth, "bfs_wall_s": bfs_wall,
@@ -1197,6 +1229,19 @@ pub fn run(ctx: &Arc<Ctx>, sel: Sel) {
             "stateright_generated": checker.state_count(), "stateright_discoveries": checker.discoveries().keys().filter(|k| **k != "__exhaust").count()}));
         if sr_unique != mine {
             r.machinery_error(format!("engine cross-check failed: stateright found {sr_unique} distinct states to depth {xdepth}, bfs.rs found {mine}"));
+        }
+    }
+
+    // determinism: a second, independent exploration of the shallow levels must find exactly
+    // the same number of distinct states per depth
+    {
+        let d2 = depth.min(2);
+        let gm3 = build_model(sel, d2);
+        let (st2, _) = crate::bfs::run_bfs(&gm3);
+        let same = st2.per_depth[..] == stats.per_depth[..st2.per_depth.len().min(stats.per_depth.len())];
+        r.set("determinism_recheck", json!({"depth": d2, "states_per_depth_second_run": st2.per_depth, "identical": same}));
+        if !same && disc.is_empty() {
+            r.machinery_error(format!("exploration is not deterministic: second run found {:?} states per depth, first run {:?}", st2.per_depth, stats.per_depth));
         }
     }
 
